@@ -33,7 +33,6 @@ Record cfg := { c_ext : bool;            (* useExternalCommitAllowance (sync rep
                 c_maxActive : N;         (* MaxActiveTransactions (= size of the precommit buffer) *)
                 c_maxKeyLen : N; c_maxValueLen : N; c_maxTxEntries : N }.
 
-
 (* an entry as recorded by precommit: key, metadata, value hash, and the value unless the
    exporting side had truncated it (then Value = nil, vLen = 0, hVal = the carried digest) *)
 Record rentry := { re_key : bytes; re_md : option kvmd; re_hval : bytes; re_val : option bytes }.
@@ -104,7 +103,9 @@ Definition alh (h : txhdr) : bytes :=
    the flag tells whether the record is a live precommitted transaction (true) or was discarded by
    DiscardPrecommittedTxsSince (false: still in the file, re-read by the next Open). *)
 (* s_ghost: records still in the file behind the logical end of the tx log (left there by a reopening
-   that did not take them back); the next append overwrites them. *)
+   that did not take them back, or by a precommit that failed after its append); the next
+   performPrecommit rewinds the log to its logical end (txLog.SetOffset, which drops what follows)
+   before it appends. *)
 (* s_cap: size of the precommit buffer (MaxActiveTransactions at Open; the recovery loop doubles it
    while more precommitted transactions are reloaded than fit). *)
 Record store := { s_com : list txrec; s_tail : list (txrec * bool); s_allowed : N;
@@ -212,7 +213,8 @@ Definition replicate (c : cfg) (skip : bool) (st : store) (b : bytes) : res stor
 (* the store after a call that did not return a header.  Only a failure inside performPrecommit
    (precommit buffer full) has touched anything: the tx log, to which the
    record was appended before cLogBuf.put failed -- it stays behind the logical end of the log,
-   is overwritten by the next append, and is found by the reload loop of the next Open. *)
+   is dropped by the SetOffset of the next performPrecommit, and is found by the reload loop of an
+   Open that comes first. *)
 Definition failed_st (c : cfg) (skip : bool) (st : store) (b : bytes) : store :=
   match precheck c skip st b with
   | Ok k => {| s_com := s_com st; s_tail := s_tail st; s_allowed := s_allowed st;
@@ -255,7 +257,7 @@ Definition discard (st : store) (t : N) : res (store * N) :=
 
 (* Close + Open: the tx log is re-read from the committed offset; records are taken back as
    precommitted while they chain (ID = previous+1, PrevAlh = previous Alh), the rest is dropped
-   (overwritten by the next append); the allowance restarts from the committed transaction *)
+   (dropped by the next performPrecommit); the allowance restarts from the committed transaction *)
 Fixpoint reload (cur : N) (curalh : bytes) (l : list txrec) : list txrec :=
   match l with
   | [] => []
